@@ -59,8 +59,7 @@ def assignments(func_node):
                     bind(it.optional_vars, it.context_expr, n, 'with')
         elif isinstance(n, ast.NamedExpr):
             bind(n.target, n.value, n, None)
-        elif isinstance(n, ast.comprehension):
-            bind(n.target, n.iter, n, 'for')
+        # comprehension targets are scoped to the comprehension (see comp_binding)
     func_node._assignments = out
     return out
 
@@ -148,3 +147,132 @@ def _unpack_origin(proj, mod, func_node, value, path, depth, seen):
             if outs:
                 return outs
     return [(_Opaque('unpack', value), mod, func_node)]
+
+
+# ----------------------------------------------------------------- reaching definitions (structured)
+def _stmt_of(node):
+    """Innermost statement containing node, and the (parent, field-list) it sits in."""
+    n = node
+    while n is not None and not isinstance(n, ast.stmt):
+        n = getattr(n, '_parent', None)
+    return n
+
+
+def _block_of(stmt):
+    p = getattr(stmt, '_parent', None)
+    if p is None:
+        return None, None
+    for field in ('body', 'orelse', 'finalbody'):
+        b = getattr(p, field, None)
+        if isinstance(b, list) and any(s is stmt for s in b):
+            return p, b
+    if isinstance(p, ast.Try):
+        for h in p.handlers:
+            if any(s is stmt for s in h.body):
+                return p, h.body
+    if isinstance(p, ast.ExceptHandler):
+        return p, p.body
+    return p, None
+
+
+def _binds(stmt, name):
+    """Assigned values for `name` anywhere inside stmt (own scope): list of (value, stmt, path)."""
+    out = []
+    fake = ast.FunctionDef(name='_', args=ast.arguments(posonlyargs=[], args=[], kwonlyargs=[], kw_defaults=[], defaults=[]),
+                           body=[stmt], decorator_list=[])
+    for nm, lst in assignments(fake).items():
+        if nm == name:
+            out.extend(lst)
+    return out
+
+
+def reaching_defs(func_node, name, at_node):
+    """May-reach definitions of `name` at `at_node` (structured backwards walk).
+
+    Returns list of (value, stmt, path); a ('param', None, None) entry means the parameter/outer value may reach.
+    """
+    out = []
+    stmt = _stmt_of(at_node)
+    killed = False
+    while stmt is not None and stmt is not func_node and not killed:
+        parent, block = _block_of(stmt)
+        if block is not None:
+            idx = next(i for i, s in enumerate(block) if s is stmt)
+            for s in reversed(block[:idx]):
+                if isinstance(s, (ast.FunctionDef, ast.AsyncFunctionDef, ast.ClassDef)):
+                    continue
+                b = _binds(s, name)
+                if not b:
+                    continue
+                simple = isinstance(s, (ast.Assign, ast.AnnAssign)) and not any(p == 'aug' for _, _, p in b)
+                out.extend(b)
+                if simple:
+                    killed = True
+                    break
+                if isinstance(s, ast.AugAssign):
+                    continue
+                if isinstance(s, ast.If) and s.orelse and _always_binds(s.body, name) and _always_binds(s.orelse, name):
+                    killed = True
+                    break
+        if killed:
+            break
+        if isinstance(parent, (ast.For, ast.While, ast.AsyncFor)):
+            # loop-carried definitions
+            for s in parent.body:
+                out.extend(_binds(s, name))
+            if isinstance(parent, (ast.For, ast.AsyncFor)):
+                fake_b = _binds(ast.For(target=parent.target, iter=parent.iter, body=[], orelse=[]), name)
+                if fake_b:
+                    out.extend(fake_b)
+        if isinstance(parent, (ast.FunctionDef, ast.AsyncFunctionDef, ast.Lambda)):
+            if parent is not func_node:
+                pass
+            break
+        stmt = parent if isinstance(parent, ast.stmt) else getattr(parent, '_parent', None)
+        if isinstance(stmt, ast.ExceptHandler):
+            stmt = getattr(stmt, '_parent', None)
+    if not killed:
+        out.append(('param', None, None))
+    # de-duplicate
+    seen, res = set(), []
+    for v in out:
+        k = id(v[1]) if v[1] is not None else 'param'
+        kk = (k, str(v[2]))
+        if kk not in seen:
+            seen.add(kk)
+            res.append(v)
+    return res
+
+
+def _always_binds(body, name):
+    for s in body:
+        if isinstance(s, (ast.Assign, ast.AnnAssign)) and _binds(s, name):
+            return True
+        if isinstance(s, ast.If) and s.orelse and _always_binds(s.body, name) and _always_binds(s.orelse, name):
+            return True
+    return False
+
+
+def comp_binding(name_node):
+    """If a Name is bound by an enclosing comprehension generator return that generator's iterable."""
+    nm = name_node.id
+    p = getattr(name_node, '_parent', None)
+    while p is not None and not isinstance(p, (ast.FunctionDef, ast.AsyncFunctionDef, ast.Lambda, ast.stmt)):
+        if isinstance(p, (ast.ListComp, ast.SetComp, ast.GeneratorExp, ast.DictComp)):
+            for g in p.generators:
+                for t in ast.walk(g.target):
+                    if isinstance(t, ast.Name) and t.id == nm:
+                        return g
+        p = getattr(p, '_parent', None)
+    return None
+
+
+def walk_pruned(e, prune):
+    """ast.walk that does not descend into nodes for which prune(node) is True (the node itself is skipped)."""
+    stack = [e]
+    while stack:
+        n = stack.pop()
+        if prune(n):
+            continue
+        yield n
+        stack.extend(ast.iter_child_nodes(n))
